@@ -22,7 +22,7 @@ EXPLANATION = (
     'the key their scope sets; (g) the value read from the enclosing scope is '
     'never modified in place (the inner scope works on a copy, or undoes its '
     'registration in a shared per-thread container).  Interleavings are not explored.')
-FLOORS = {'C17.a': 7, 'C17.b': 2, 'C17.c': 7, 'C17.d': 1, 'C17.e': 2, 'C17.f': 7, 'C17.g': 2}
+FLOORS = {'C17.a': 7, 'C17.b': 2, 'C17.c': 7, 'C17.d': 1, 'C17.e': 2, 'C17.f': 7, 'C17.g': 2, 'C17.h': 1, 'C17.i': 1}
 FILES = [
     'pyglove/core/utils/thread_local.py', 'pyglove/core/symbolic/flags.py',
     'pyglove/core/utils/contextual.py', 'pyglove/core/utils/formatting.py',
@@ -359,6 +359,27 @@ def analyse_generator(ctx, f):
              f'{f.module.relpath}:{a.site.lineno}',
              '' if bad is None else f'{bad[1]} exit reachable from the yield ({bad[0]} edge) without '
              f'undoing {a.kind}({a.key})', None if bad is None else bad[2])
+    # ---- C17.h: a user-supplied callable (a parameter of the manager) called
+    # while leaving the scope runs only after the state was put back: it may
+    # raise, and then a restore placed after it never happens
+    params = set(A.param_names(f.node))
+    user_calls = [n for n in g.nodes if n.ast is not None and n.id in after and n not in ys and any(
+        isinstance(c.func, ast.Name) and c.func.id in params for c in n.calls())]
+    for uc in user_calls:
+      bad_uc = False
+      for y in ys:
+        for m, lab in y.succ:
+          if m.id in rel_nodes:
+            continue
+          seen, _ = g.reach(m, blocked_nodes=rel_nodes, follow_exc=False)
+          seen.add(m.id)
+          if uc.id in seen:
+            bad_uc = True
+      cname = [c.func.id for c in uc.calls() if isinstance(c.func, ast.Name) and c.func.id in params][0]
+      ctx.ob('C17.h', f'{construct}#{cname}', not bad_uc,
+             'a caller-supplied callback invoked on exit runs after the scoped state was restored',
+             f'{f.module.relpath}:{uc.lineno}',
+             f'`{cname}()` can run before {a.kind}({a.key}) is undone: if it raises, the scope is never torn down')
     # ---- C17.b
     for r in rel:
       if (a.kind, r.kind) in SET_RESTORES:
@@ -999,6 +1020,47 @@ def rule_g(ctx, gens):
   return n
 
 
+def rule_i(ctx):
+  """Explicit propagation to another thread carries the override OBJECTS of
+  the current scope (value + cascade + override_attrs), i.e. what the scope
+  manager itself yields / stores - not the plain values (which re-enter the
+  new thread as fresh, non-cascading overrides)."""
+  idx = ctx.index
+  f = idx.find_func('pyglove.core.utils.contextual.with_contextual_override')
+  if f is None:
+    raise AnalysisError('with_contextual_override vanished')
+  problems = []
+  inner = [n for n in ast.walk(f.node) if isinstance(n, (ast.FunctionDef, ast.Lambda)) and n is not f.node]
+  splat = []
+  for fn in inner:
+    for c in ast.walk(fn):
+      if isinstance(c, ast.Call) and (A.call_name(c) or '').split('.')[-1] in ('contextual_override', 'contextual_scope'):
+        for kw in c.keywords:
+          if kw.arg is None and isinstance(kw.value, ast.Name):
+            splat.append(kw.value.id)
+  if not splat:
+    problems.append('the wrapper no longer re-enters the captured scope')
+  for nm in splat:
+    ok = False
+    for w in ast.walk(f.node):
+      if isinstance(w, ast.With):
+        for it in w.items:
+          if it.optional_vars is not None and nm in A.assigned_names(it.optional_vars) and \
+              (A.call_name(it.context_expr) or '').split('.')[-1] in ('contextual_override', 'contextual_scope'):
+            ok = True
+    for _, v in D.defs_of(f.node, nm):
+      if v is not None and isinstance(v, ast.Call) and (A.call_name(v) or '') == 'getattr' and 'CONTEXTUAL' in A.unparse(v):
+        ok = True
+      if v is not None and isinstance(v, ast.Call) and (A.call_name(v) or '').split('.')[-1] == 'all_contextual_values':
+        problems.append('the captured context is all_contextual_values(): plain values without their cascade / '
+                        'override_attrs flags')
+    if not ok and not problems:
+      problems.append(f'`{nm}` is not the mapping of override objects yielded by the scope manager')
+  ctx.ob('C17.i', f.fq, not problems,
+         'propagating the contextual scope to another thread re-installs the override objects themselves '
+         '(cascade and override_attrs preserved)', f.loc, '; '.join(problems))
+
+
 def run(ctx):
   ctx.consult(*FILES)
   idx = ctx.index
@@ -1015,6 +1077,7 @@ def run(ctx):
   rule_d(ctx)
   rule_f(ctx)
   rule_g(ctx, gens)
+  rule_i(ctx)
   rule_tls_api(ctx)
   ctx.note(f'{len(gens)} generator-based and {len(classes)} class-based context managers enumerated')
   ctx.assume('interleavings on several threads are not explored; thread isolation is '
